@@ -11,6 +11,8 @@ import (
 )
 
 type signRes struct {
+	lenBad  []string // length alterations that were reported authentic (or panicked)
+	lenN    int
 	ix      prodIdx
 	ev      *mocrelay.Event
 	ok      bool
@@ -135,6 +137,29 @@ func c01Sign(c *vk.Ctx) {
 		default:
 			r.outcome = "not authentic"
 		}
+		// length alterations of the three hex fields of an authentic event (one byte cut off the end,
+		// one zero byte appended): whatever the cut byte was - in particular 00 - the result is another
+		// id / pubkey / sig and must not be authentic
+		if r.outcome == "authentic" {
+			for _, a := range []struct {
+				what string
+				f    func(e *mocrelay.Event)
+			}{
+				{"id with its last byte cut off", func(e *mocrelay.Event) { e.ID = e.ID[:len(e.ID)-2] }},
+				{"id with a zero byte appended", func(e *mocrelay.Event) { e.ID += "00" }},
+				{"sig with its last byte cut off", func(e *mocrelay.Event) { e.Sig = e.Sig[:len(e.Sig)-2] }},
+				{"sig with a zero byte appended", func(e *mocrelay.Event) { e.Sig += "00" }},
+				{"pubkey with its last byte cut off", func(e *mocrelay.Event) { e.Pubkey = e.Pubkey[:len(e.Pubkey)-2] }},
+				{"pubkey with a zero byte appended", func(e *mocrelay.Event) { e.Pubkey += "00" }},
+			} {
+				alt := cloneEvent(ev)
+				a.f(alt)
+				if ok, err, pan := safeVerify(alt); pan != nil || (ok && err == nil) {
+					r.lenBad = append(r.lenBad, a.what)
+				}
+				r.lenN++
+			}
+		}
 	})
 
 	counts := map[string]int{}
@@ -152,6 +177,20 @@ func c01Sign(c *vk.Ctx) {
 			failing = append(failing, i)
 		}
 	}
+	var lenEvals int64
+	for i := range res {
+		r := &res[i]
+		lenEvals += int64(r.lenN)
+		for _, what := range r.lenBad {
+			trailing := ""
+			if strings.HasSuffix(r.ev.ID, "00") && strings.HasPrefix(what, "id with its last") {
+				trailing = " (the cut byte was 00)"
+			}
+			c.Violate("C01/tamper: "+what+" accepted", fmt.Sprintf("a correctly signed event stays authentic after its %s%s", what, trailing), showEvent(r.ev))
+		}
+	}
+	c.Eval(lenEvals)
+	c.SetExtra("length_alterations_evaluated", lenEvals)
 	c.SetExtra("outcomes", counts)
 	c.SetExtra("events_failing", len(failing))
 	c.SetExtra("product", map[string]int{"keys": len(signers), "kinds": len(prodKinds), "created_at": len(prodCreated), "tag_shapes": len(prodTags), "contents": len(contents)})
